@@ -15,8 +15,9 @@ PROP = dict(
         "prices can spin on JMP 0 and is outside the property's premise",
         "bare VM: SYSCALL/CALLT fault; Go runtime memory safety of math/big, slices and maps is assumed",
     ],
-    modelled="vm.go and scparser.IsScriptCorrect are modelled, not translated; refs_never_undercount is stated but not proved in Coq "
-             "(it is checked on the real VM and on the model at every step of every generated execution)",
+    modelled="vm.go and scparser.IsScriptCorrect are modelled, not translated; refs_never_undercount is proved in Coq only for "
+             "executions that create no Array/Struct/Map (there the counter is exact); for the compound-type instructions it is "
+             "checked on the real VM and on the model at every step of every generated execution",
 )
 META = dict(
     text="Proved in Coq on the VM model for every script and state: totality (every execution under a finite gas limit with "
@@ -29,7 +30,8 @@ META = dict(
          "independent walk at every step and == while no cycle was built, limits; refs trace, state, stack and gas equal the "
          "model's; soundness of the static script check (model of scparser.IsScriptCorrect, compared with it on every case): a "
          "script that passes never stands at a non-boundary offset - proved in Coq and checked directly on the real VM. "
-         "Partial: counter soundness (reach_count <= refs) is not proved in Coq for the compound-type instructions, only "
+         "Partial: counter soundness (reach_count <= refs) is proved in Coq only as exactness on compound-free executions "
+         "(all instructions except the nine that create an Array/Struct/Map); for the compound-type instructions it is only "
          "checked at every step of every generated execution (real VM: counter vs independent walk; model: walk vs the "
          "counter the real VM showed).",
     note="The model is hand-written and tied to vm.go by differential execution only. Trusted: model, translator of the tables, "
